@@ -1,18 +1,46 @@
 (* C18 -- The regexp pre-filter never rejects a matching packet.
    Model: Kernel/Regex.v (the regular expressions as_regular_expression builds, and their language) and
    Model/Pattern.v (every field's pack_regexp, as repaired by the fixes D5, D6, D14).
-   FULL STATEMENT: for all flat declarations over Int, Bits and Data and all patterns.  PROVED (`_partial`):
-   for all flat declarations over Int and Data (every sizing mode, every subset of fields left as Any); for bit
-   runs the per-byte character class is proved sound (C18_byte_class_sound, exhaustively over all 3^8 fixed/free
-   masks) but the glue from the run's integer to its bytes is not: bit runs are covered by the correspondence
-   check (rendered pattern compared byte for byte) and the implementation oracle only. *)
+   FULL STATEMENT: for all flat declarations over Int, Bits and Data and all patterns.  PROVED (C18_sound): exactly
+   that -- every sizing mode, every subset of fields left as Any, bit runs included (the glue from a run's shared
+   integer to one character class per byte: Proofs/RegexBits.v, on top of C18_byte_class_sound), for class tables
+   whose bit runs are well formed (`class_bits_ok`, which the metaclass model guarantees: C01_describe_bits_ok) and
+   patterns that only carry declared attributes (`ps_visible`: a pattern packet has no other; the statement without
+   it is refuted by C18_needs_visible).  C18_sound_partial is the earlier theorem without bit runs. *)
 From Coq Require Import ZArith List Bool.
 From Bisturi Require Import Base.Bytes Kernel.IntCodec Kernel.DataK Kernel.Regex Model.Value Model.Decl Model.Unpack Model.Pattern
-                            Proofs.RoundTrip Proofs.RegexProofs.
+                            Model.WfBits Proofs.RoundTrip Proofs.RegexProofs Proofs.RegexBits.
 Import ListNotations. Open Scope Z_scope.
 
 (* if raw parses to a packet that is the pattern wherever the pattern is fixed, the derived regular expression
    matches a prefix of raw: the pre-filter cannot drop it *)
+Theorem C18_sound : forall fuel host ct c k raw s e t ps rs,
+  ct_get ct c = Some k -> forallb flat_field (cc_fields k) = true -> class_bits_ok k = true ->
+  nodupb (fidxs (cc_fields k)) = true ->
+  NoDup (map fst ps) -> ps_visible ps = true -> wf_bytes raw ->
+  unpack_pkt fuel host ct raw c 0 = POk (VPkt c s) e t ->
+  pattern_is (cc_fields k) ps s ->
+  regex_of host k ps = Some rs ->
+  prefix_match rs raw.
+Proof. exact regex_sound. Qed.
+(* non-vacuity: Int(1), a run of 3+5+8 bits, Data sized by the 5-bit member; two patterns; the theorem applied *)
+Example C18_sound_example :
+  prefix_match [RLit [7]; RRange 160 191; RLit [90]; RStar] rb_ex_raw /\
+  prefix_match [RAny 1; RSet [3; 35; 67; 99; 131; 163; 195; 227]; RAny 1; RLit [65; 66; 67]] rb_ex_raw.
+Proof. exact regex_sound_bits_applied. Qed.
+(* a pattern that fixes the hidden shared integer of a bit run (no pattern packet can) refutes the statement *)
+Example C18_needs_visible :
+  ct_get [(0, rb_cx_k)] 0 = Some rb_cx_k /\
+  forallb flat_field (cc_fields rb_cx_k) = true /\ class_bits_ok rb_cx_k = true /\
+  nodupb (fidxs (cc_fields rb_cx_k)) = true /\
+  NoDup (map fst rb_cx_ps) /\ wf_bytes rb_cx_raw /\
+  (exists t, unpack_pkt 1 true [(0, rb_cx_k)] rb_cx_raw 0 0 = POk (VPkt 0 rb_cx_slots) 3 t) /\
+  pattern_is (cc_fields rb_cx_k) rb_cx_ps rb_cx_slots /\
+  regex_of true rb_cx_k rb_cx_ps = Some [RAny 1; RAny 3] /\
+  ~ prefix_match [RAny 1; RAny 3] rb_cx_raw /\
+  ps_visible rb_cx_ps = false.
+Proof. exact regex_sound_needs_visible. Qed.
+
 Theorem C18_sound_partial : forall fuel host ct c k raw s e t ps rs,
   ct_get ct c = Some k -> forallb flat_field_nobits (cc_fields k) = true -> nodupb (fidxs (cc_fields k)) = true ->
   NoDup (map fst ps) -> wf_bytes raw ->
@@ -29,6 +57,7 @@ Theorem C18_total_any : forall host cf name l ps, pslot_get ps name = Some PAny 
   exists rs, leaf_regex host cf name l ps = Some rs.
 Proof. exact leaf_regex_total_any. Qed.
 
+Print Assumptions C18_sound.
 Print Assumptions C18_sound_partial.
 Print Assumptions C18_byte_class_sound.
 Print Assumptions C18_total_any.
